@@ -313,6 +313,8 @@ def run_edges(graph, part, nparts, st):
         if proc_of(act) == "sel" or len(path) > 3:
             st.nontrivial.add(key)
         st.outcome(h(("edge", act, bad[0] if bad else "ok")))
+        if not bad:
+            st.note("model_edges_replayed_on_the_code_ok")
         if bad:
             st.violation("conformance:model-to-code:%s:%s" % (bad[0], act), bad[1],
                          {"kind": "model-path", "maxops": graph.tlc["MaxOps"], "path": [[a, d] for a, d in path]})
@@ -409,6 +411,8 @@ def run_simulation(graph, driver, bound, st, max_execs=60000):
         if o.get("deadlock") or o.get("horizon") or (o.get("crash") and o["crash"] != "abort"):
             return          # reported by the primary check; the trace is not a complete behaviour
         bad = simulate(graph, o["obslog"], covered)
+        if not bad:
+            st.note("code_schedules_simulated_in_the_model_ok")
         st.outcome(h(("sim", driver, bad[0] if bad else "ok", len(o["obslog"]))))
         if bad:
             st.violation("conformance:code-to-model:%s" % bad[0], "driver %s schedule %r: %s" % (driver, ch.choices(), bad[1]),
